@@ -470,6 +470,42 @@ func (e *c10Env) oneCase(name string, before, after interface{}, tag string) boo
 	if canon(before) != canon(after) {
 		c.Distinct(tag + "|" + sigCfg + "|" + canon(before) + ">" + canon(after))
 	}
+	// a mutation the store must refuse - Create on an id that exists, Update and Delete on one
+	// that does not: it fails, nothing is published and a fresh get is what it was
+	if other := before; other != nil || after != nil {
+		if other == nil {
+			other = after
+		}
+		pos2 := e.rig.C.Len()
+		wt := e.st.Write(storeID)
+		var rerr error
+		what := "Create on the existing id"
+		if after != nil {
+			rerr = wt.Create(other)
+		} else {
+			what = "Update and Delete on the missing id"
+			if rerr = wt.Update(other); rerr != nil {
+				rerr = wt.Delete()
+			}
+		}
+		wt.Close()
+		c.Obs("refused_mutations", 1)
+		d2 := copyDesc(desc)
+		d2["refused_mutation"], d2["with_value"] = what, other
+		_, _, evs2 := e.applyEvents(e.rig.C.Since(pos2), rid, fresh, ffound, d2)
+		fresh2, ffound2, ok := e.get(rid)
+		if !ok {
+			return false
+		}
+		switch {
+		case rerr == nil:
+			c.Violation("C10/refused-mutation-accepted:"+sigCfg, fmt.Sprintf("%s (%s) succeeded; events %v", what, storeID, evs2), d2)
+		case len(evs2) > 0:
+			c.Violation("C10/event-for-refused-mutation:"+sigCfg, fmt.Sprintf("%s failed (%v) but events %v were published on %s", what, rerr, evs2, rid), d2)
+		case ffound2 != ffound || canon(fresh2) != canon(fresh):
+			c.Violation("C10/refused-mutation-changed-resource:"+sigCfg, fmt.Sprintf("%s failed (%v) but a fresh get of %s went from %s to %s", what, rerr, rid, canon(fresh), canon(fresh2)), d2)
+		}
+	}
 	// clean up
 	e.mutate(storeID, after, nil)
 	return true
